@@ -15,6 +15,10 @@ fn get_used_lifetimes(ty: &Type) -> Vec<String> {
     } else {
         vec![]
     };
+    // a lifetime used as a generic argument (`Cow<'a, str>`)
+    if let Category::Lifetime { path } = &ty.ident {
+        ret.push(path.clone());
+    }
     if let Some(wraps) = &ty.wraps {
         for wrapped in wraps {
             ret.extend(get_used_lifetimes(wrapped))
